@@ -82,14 +82,14 @@ def gen_rbf_params(rng, n):
     out = []
     for i in range(n):
         name = (NAMES + ['callable'])[i % 8]
+        offset = [None, 0.0, 0.1, None, 1.0, 0][(i // 8) % 6]          # every name meets every offset kind
         out.append(dict(test='rbf', rbf=name, seed=int(rng.integers(1 << 30)), ns=int(rng.integers(1, 4)),
                         nu=int(rng.integers(0, 3)), k=int(rng.integers(1, 5)), rows=int(rng.integers(2, 7)),
-                        shape=float(rng.choice([0.25, 0.5, 1.0, 2.0, 3.5])),
-                        offset=(None if rng.random() < 0.5 else float(rng.choice([0.0, 0.1, 1.0]))),
+                        shape=float(rng.choice([0.25, 0.5, 1.0, 2.0, 3.5])), offset=offset,
                         ep=bool(rng.random() < 0.5), hit_center=bool(rng.random() < 0.4),
                         scale=float(rng.choice([0.3, 1.0, 3.0]))))
-        if name == 'thin_plate' and out[-1]['offset'] == 0.0 and out[-1]['hit_center']:
-            out[-1]['offset'] = None         # r = 0 with offset 0 is outside the domain of r^2 log r
+        if name == 'thin_plate' and offset is not None and offset == 0 and out[-1]['hit_center']:
+            out[-1]['hit_center'] = False    # r = 0 with offset 0 is outside the domain of r^2 log r
     return out
 
 
